@@ -3,6 +3,7 @@ import WhVerif.Lemmas.C11Geno
 import WhVerif.Lemmas.C11PolyPairs
 import WhVerif.Lemmas.C11Invariant
 import WhVerif.Lemmas.C11Glue
+import WhVerif.Lemmas.C11RunSpec
 /-!
 # C11 — `whatshap compare` reports the defined error counts, independent of haplotype labelling
 
@@ -208,36 +209,36 @@ theorem agreement_zeros_swap_invariant (a b : Hap) (v w : List Nat)
 example : (agreementFixed (dipl [0,1,1,0,1]) (dipl [0,0,1,1,1])).map zerosOf = some 2 ∧
     (agreementFixed [flipBits [0,1,1,0,1], [0,1,1,0,1]] [flipBits [0,0,1,1,1], [0,0,1,1,1]]).map zerosOf = some 2 := by decide
 
-/-! ## polyploid switch/flip calculator (`switchflipcalculator.cpp`), ploidy ≤ 4, any number of positions, any costs
+/-! ## polyploid switch/flip calculator (`switchflipcalculator.cpp`), EVERY ploidy, any number of positions, any costs
 
 `cols` = per position the pair of allele columns.  `Spec.polyBrute` enumerates ALL sequences of haplotype
 correspondences (bijections, enumerated naively) and takes the minimum of
 `sc · Σ (#haplotypes whose partner changes) + fc · Σ (#mismatching alleles)`. -/
 
 /-- the recurrences of the calculator without its pruning compute that minimum (Viterbi argument) -/
-theorem poly_dp_unpruned_optimal (p sc fc : Nat) (hp : p ≤ 4) (cols : List (List Nat × List Nat)) :
+theorem poly_dp_unpruned_optimal_any_ploidy (p sc fc : Nat) (cols : List (List Nat × List Nat)) :
     (polyCompareFull p sc fc cols).1 = (Spec.polyBrute p sc fc cols).1 :=
-  polyCompareFull_eq_brute p sc fc hp cols
+  polyCompareFull_eq_brute p sc fc cols
 
 /-- the pruning as coded (erase `t` if `score t ≥ score p + sc·d(t,p)` for a profitable `p`, profitable list capped
 at `ploidy` members) never changes the result: every erased entry is dominated by a kept one and `d` is a metric -/
-theorem poly_prune_sound (fixA : Bool) (p sc fc : Nat) (hp : p ≤ 4) (cols : List (List Nat × List Nat)) :
+theorem poly_prune_sound_any_ploidy (fixA : Bool) (p sc fc : Nat) (cols : List (List Nat × List Nat)) :
     (polyCompare fixA p sc fc cols).cost = (polyCompareFull p sc fc cols).1 :=
-  polyCompare_cost_eq_full fixA p sc fc (perms_ne_nil p hp) (perms_length p hp) cols
+  polyCompare_cost_eq_full fixA p sc fc (perms_ne_nil p) (perms_length p) cols
 
 /-- the calculator as coded returns the minimum over all sequences of haplotype correspondences -/
-theorem poly_dp_optimal (fixA : Bool) (p sc fc : Nat) (hp : p ≤ 4) (cols : List (List Nat × List Nat)) :
+theorem poly_dp_optimal_any_ploidy (fixA : Bool) (p sc fc : Nat) (cols : List (List Nat × List Nat)) :
     (polyCompare fixA p sc fc cols).cost = (Spec.polyBrute p sc fc cols).1 :=
-  polyCompare_eq_brute fixA p sc fc hp cols
+  polyCompare_eq_brute fixA p sc fc cols
 
 /-- … and every `(switches, flips)` pair its back-tracking may return (under any hash order of the `unordered_map`s)
 costs exactly that minimum — for ≥ 2 positions, or for the repaired code (fixes/FC11a.patch) -/
-theorem poly_reported_pair_has_optimal_cost (fixA : Bool) (p sc fc : Nat) (hp : p ≤ 4)
+theorem poly_reported_pair_has_optimal_cost_any_ploidy (fixA : Bool) (p sc fc : Nat)
     (cols : List (List Nat × List Nat)) (hq : fixA = true ∨ 2 ≤ cols.length) :
     ∀ sf ∈ (polyCompare fixA p sc fc cols).admissible,
       sc * sf.1 + fc * sf.2 = (Spec.polyBrute p sc fc cols).1 := by
   intro sf hsf
-  rw [← poly_dp_optimal fixA p sc fc hp cols]
+  rw [← poly_dp_optimal_any_ploidy fixA p sc fc cols]
   exact polyCompare_admissible_cost fixA p sc fc cols hq sf hsf
 
 example : (polyCompare true 3 1 1 [([0,0,1],[0,1,0]), ([0,1,1],[1,1,0]), ([1,0,0],[0,1,0])]).admissible ≠ [] := by decide
@@ -267,29 +268,29 @@ determines the pair, so the reported pair is unique whatever the iteration order
 /-- **realisability**: every `(switches, flips)` pair the back-tracking may return (any hash order) is the count pair
 of an actual sequence of haplotype correspondences, one bijection per position, and that sequence is optimal: the
 pair is a member of the brute-force set of optimal pairs (≥ 2 positions, or repaired single-position code) -/
-theorem poly_reported_pair_realised (fixA : Bool) (p sc fc : Nat) (hp : p ≤ 4)
+theorem poly_reported_pair_realised_any_ploidy (fixA : Bool) (p sc fc : Nat)
     (cols : List (List Nat × List Nat)) (hq : fixA = true ∨ 2 ≤ cols.length) :
     ∀ sf ∈ (polyCompare fixA p sc fc cols).admissible, sf ∈ (Spec.polyBrute p sc fc cols).2 := by
   intro sf hsf
-  rw [mem_polyBrute_snd, ← perms_eq_bijections p hp]
+  rw [mem_polyBrute_snd, ← perms_eq_bijections p]
   exact ⟨polyCompare_admissible_realised fixA p sc fc cols hq sf hsf,
-    poly_reported_pair_has_optimal_cost fixA p sc fc hp cols hq sf hsf⟩
+    poly_reported_pair_has_optimal_cost_any_ploidy fixA p sc fc cols hq sf hsf⟩
 
 example : (0, 1) ∈ (polyCompare true 3 1 1 [([0,0,1],[0,1,0]), ([0,1,1],[1,0,0])]).admissible ∧
     (0, 1) ∈ (Spec.polyBrute 3 1 1 [([0,0,1],[0,1,0]), ([0,1,1],[1,0,0])]).2 := by decide
 
 /-- the pair reported under first-arg-min tie-breaking is one of the admissible pairs (so it is realised and
 optimal as well, and the admissible set is never empty) -/
-theorem poly_rep_is_admissible (fixA : Bool) (p sc fc : Nat) (hp : p ≤ 4) (cols : List (List Nat × List Nat)) :
+theorem poly_rep_is_admissible_any_ploidy (fixA : Bool) (p sc fc : Nat) (cols : List (List Nat × List Nat)) :
     (polyCompare fixA p sc fc cols).rep ∈ (polyCompare fixA p sc fc cols).admissible :=
-  polyCompare_rep_admissible fixA p sc fc (perms_ne_nil p hp) cols
+  polyCompare_rep_admissible fixA p sc fc (perms_ne_nil p) cols
 
 example : (polyCompare true 3 1 1 [([0,0,1],[0,1,0]), ([0,1,1],[1,1,0]), ([1,0,0],[0,1,0])]).rep = (2, 0) := by decide
 
 /-- the repaired decomposition of `compare_block` (costs `pn+1 / pn+2`) is unique — every pair the code may return,
 under any iteration order, is the same — and it is the lexicographic minimum of (switches + flips, flips) over all
 sequences of correspondences -/
-theorem poly_fixed_split_unique_lexmin (p n : Nat) (hp : p ≤ 4) (ph0 ph1 : List Hap) :
+theorem poly_fixed_split_unique_lexmin_any_ploidy (p n : Nat) (ph0 ph1 : List Hap) :
     (∀ sf ∈ (polySwitchFlips true true ph0 ph1 p n).admissible, sf = (polySwitchFlips true true ph0 ph1 p n).rep) ∧
     ∀ s ∈ Spec.seqs (Spec.bijections p) n,
       let r := (polySwitchFlips true true ph0 ph1 p n).rep
@@ -299,25 +300,25 @@ theorem poly_fixed_split_unique_lexmin (p n : Nat) (hp : p ≤ 4) (ph0 ph1 : Lis
   have hlen : (polyCols ph0 ph1 n).length = n := polyCols_length ph0 ph1 n
   constructor
   · simp only [polySwitchFlips, if_true]
-    apply polyCompare_admissible_unique p _ _ hp
+    apply polyCompare_admissible_unique p _ _
     rw [hlen]; exact determined_lex _ _ (by omega)
   · intro s hs
     simp only [polySwitchFlips, if_true]
     generalize hcols : polyCols ph0 ph1 n = cols at hlen ⊢
-    have hrep := polyCompare_rep_admissible true p (p * n + 1) (p * n + 2) (perms_ne_nil p hp) cols
+    have hrep := polyCompare_rep_admissible true p (p * n + 1) (p * n + 2) (perms_ne_nil p) cols
     have hcost := polyCompare_admissible_cost true p (p * n + 1) (p * n + 2) cols (Or.inl rfl) _ hrep
-    obtain ⟨_, hb⟩ := polyCompare_admissible_bounds p (p * n + 1) (p * n + 2) hp cols _ hrep
+    obtain ⟨_, hb⟩ := polyCompare_admissible_bounds p (p * n + 1) (p * n + 2) cols _ hrep
     rw [hlen] at hb
     -- lower bound: the cost is the minimum over all sequences
     have hmin : (polyCompare true p (p * n + 1) (p * n + 2) cols).cost
         ≤ (p * n + 1) * Spec.seqSwitches s + (p * n + 2) * Spec.seqFlips s cols := by
-      rw [polyCompare_cost_eq_bruteValue true p _ _ hp cols]
+      rw [polyCompare_cost_eq_bruteValue true p _ _ cols]
       apply listMin_le_of_mem
-      rw [hlen, perms_eq_bijections p hp]
+      rw [hlen, perms_eq_bijections p]
       exact List.mem_map.2 ⟨s, hs, rfl⟩
     obtain ⟨hl, hall⟩ := (mem_seqs _ _ _).1 hs
     have hfl : Spec.seqFlips s cols ≤ p * n := by
-      have := seqFlips_le p s cols (fun r hr => perms_length p hp r (by rw [perms_eq_bijections p hp]; exact hall r hr))
+      have := seqFlips_le p s cols (fun r hr => perms_length p r (by rw [perms_eq_bijections p]; exact hall r hr))
       rwa [hlen] at this
     generalize (polyCompare true p (p * n + 1) (p * n + 2) cols).rep = r at hcost hb hmin ⊢
     generalize Spec.seqSwitches s = sw at hmin ⊢
@@ -347,38 +348,38 @@ example : (polySwitchFlips true true [[1,1,0,0],[0,0,0,1],[1,0,1,0]] [[1,0,0,1],
 /-- **what is invariant for arbitrary costs** (in particular the as-coded `1 / 1` split): the optimal objective
 value and the SET of co-optimal `(switches, flips)` pairs do not depend on the order in which the haplotypes of
 either phasing are listed (which member of that set the as-coded calculator returns does: `FC11b_witness`) -/
-theorem poly_optimum_perm_invariant (fixA : Bool) (p sc fc n : Nat) (hp : p ≤ 4) (τ υ : Perm) (hτ : τ ∈ perms p)
+theorem poly_optimum_perm_invariant_any_ploidy (fixA : Bool) (p sc fc n : Nat) (τ υ : Perm) (hτ : τ ∈ perms p)
     (hυ : υ ∈ perms p) (ph0 ph1 : List Hap) (h0 : ph0.length = p) (h1 : ph1.length = p) :
     (polyCompare fixA p sc fc (polyCols (relabelHaps τ ph0) (relabelHaps υ ph1) n)).cost
         = (polyCompare fixA p sc fc (polyCols ph0 ph1 n)).cost ∧
     ∀ sf, sf ∈ (Spec.polyBrute p sc fc (polyCols (relabelHaps τ ph0) (relabelHaps υ ph1) n)).2
         ↔ sf ∈ (Spec.polyBrute p sc fc (polyCols ph0 ph1 n)).2 := by
-  have hc := cost_relabel_eq p sc fc hp τ υ hτ hυ ph0 ph1 n h0 h1
+  have hc := cost_relabel_eq p sc fc τ υ hτ hυ ph0 ph1 n h0 h1
   refine ⟨by rw [cost_fixA_irrelevant, hc, ← cost_fixA_irrelevant], ?_⟩
   intro sf
-  rw [mem_polyBrute_snd, mem_polyBrute_snd, ← perms_eq_bijections p hp,
-    attainable_relabel_iff p hp τ υ hτ hυ ph0 ph1 n h0 h1 sf,
-    ← poly_dp_optimal true p sc fc hp, ← poly_dp_optimal true p sc fc hp, hc]
+  rw [mem_polyBrute_snd, mem_polyBrute_snd, ← perms_eq_bijections p,
+    attainable_relabel_iff p τ υ hτ hυ ph0 ph1 n h0 h1 sf,
+    ← poly_dp_optimal_any_ploidy true p sc fc, ← poly_dp_optimal_any_ploidy true p sc fc, hc]
 
 example : [2,0,1] ∈ perms 3 ∧ [1,0,2] ∈ perms 3 ∧
     relabelHaps [2,0,1] [[1,1,0,0],[0,0,0,1],[1,0,1,0]] = [[1,0,1,0],[1,1,0,0],[0,0,0,1]] := by decide
 
-/-- **`poly_perm_invariant`** (current code: repaired single-position and tie-breaking behaviour): for ploidy 3 and 4
+/-- **`poly_perm_invariant`** (current code: repaired single-position and tie-breaking behaviour): for every ploidy ≥ 3
 everything `compare_block` reports — switch errors, Hamming distance, the switch/flip decomposition, different
 genotypes — is unchanged when the haplotypes of the first phasing are listed in the order `τ` and those of the second
 in the order `υ`, for all permutations `τ`, `υ` (the diploid case is `swap_invariant_left/right`) -/
-theorem poly_perm_invariant (ph0 ph1 : List Hap) (τ υ : Perm) (hw : wellFormed ph0 ph1 = true)
-    (hp : ph0.length ≤ 4) (h2 : ph0.length ≠ 2) (hτ : τ ∈ perms ph0.length) (hυ : υ ∈ perms ph0.length) :
+theorem poly_perm_invariant_any_ploidy (ph0 ph1 : List Hap) (τ υ : Perm) (hw : wellFormed ph0 ph1 = true)
+    (h2 : ph0.length ≠ 2) (hτ : τ ∈ perms ph0.length) (hυ : υ ∈ perms ph0.length) :
     compareBlock true true (relabelHaps τ ph0) (relabelHaps υ ph1) = compareBlock true true ph0 ph1 := by
   obtain ⟨hp2, s0, s1⟩ := (wellFormed_iff ph0 ph1).1 hw
   generalize hpd : ph0.length = p at *
   generalize hnd : (ph0.headD []).length = n at *
-  have t0 := s0.relabel τ (perms_length p hp τ hτ) (perms_entries_lt p hp τ hτ)
-  have t1 := s1.relabel υ (perms_length p hp υ hυ) (perms_entries_lt p hp υ hυ)
+  have t0 := s0.relabel τ (perms_length p τ hτ) (perms_entries_lt p τ hτ)
+  have t1 := s1.relabel υ (perms_length p υ hυ) (perms_entries_lt p υ hυ)
   rw [compareBlock_poly true true _ _ (t0.wellFormed t1 hp2) (by rw [t0.1]; exact h2),
     compareBlock_poly true true ph0 ph1 hw (by rw [hpd]; exact h2), t0.1, hpd, hnd,
     t0.head_length (by omega)]
-  exact polyBlock_relabel p n hp τ υ hτ hυ ph0 ph1 hpd s1.1
+  exact polyBlock_relabel p n τ υ hτ hυ ph0 ph1 hpd s1.1
 
 example : wellFormed [[1,1,0,0],[0,0,0,1],[1,0,1,0]] [[1,0,0,1],[0,1,0,0],[1,0,1,0]] = true ∧
     compareBlock true true [[1,1,0,0],[0,0,0,1],[1,0,1,0]] [[1,0,0,1],[0,1,0,0],[1,0,1,0]]
@@ -437,5 +438,163 @@ example : (phasesOfP true 2 [⟨10,[0,1],true,1⟩, ⟨20,[2,1],true,1⟩, ⟨30
     = [some (1,[0,1]), none, some (1,[1,0])] ∧
     (List.range 2).map (hapOf (phasesOfP true 2 [⟨10,[0,1],true,1⟩, ⟨20,[2,1],true,1⟩, ⟨30,[1,0],true,1⟩] [10,20,30]) [0,2])
       = dipl [0,1] := by decide
+
+/-! ## the statements of the earlier rounds (ploidy ≤ 4): instances of the `…_any_ploidy` theorems above
+
+The bound entered only through finite facts about the state list `perms p` (`decide` for `p = 0..4`); they are now proved
+for every `p` in `Lemmas/C11Perms.lean` (`mem_perms_iff`, `perms_comp`, `invPerm_spec`, `perms_eq_bijections`). -/
+
+theorem poly_dp_unpruned_optimal (p sc fc : Nat) (_hp : p ≤ 4) (cols : List (List Nat × List Nat)) :
+    (polyCompareFull p sc fc cols).1 = (Spec.polyBrute p sc fc cols).1 :=
+  poly_dp_unpruned_optimal_any_ploidy p sc fc cols
+
+theorem poly_prune_sound (fixA : Bool) (p sc fc : Nat) (_hp : p ≤ 4) (cols : List (List Nat × List Nat)) :
+    (polyCompare fixA p sc fc cols).cost = (polyCompareFull p sc fc cols).1 :=
+  poly_prune_sound_any_ploidy fixA p sc fc cols
+
+theorem poly_dp_optimal (fixA : Bool) (p sc fc : Nat) (_hp : p ≤ 4) (cols : List (List Nat × List Nat)) :
+    (polyCompare fixA p sc fc cols).cost = (Spec.polyBrute p sc fc cols).1 :=
+  poly_dp_optimal_any_ploidy fixA p sc fc cols
+
+theorem poly_reported_pair_has_optimal_cost (fixA : Bool) (p sc fc : Nat) (_hp : p ≤ 4)
+    (cols : List (List Nat × List Nat)) (hq : fixA = true ∨ 2 ≤ cols.length) :
+    ∀ sf ∈ (polyCompare fixA p sc fc cols).admissible,
+      sc * sf.1 + fc * sf.2 = (Spec.polyBrute p sc fc cols).1 :=
+  poly_reported_pair_has_optimal_cost_any_ploidy fixA p sc fc cols hq
+
+theorem poly_reported_pair_realised (fixA : Bool) (p sc fc : Nat) (_hp : p ≤ 4)
+    (cols : List (List Nat × List Nat)) (hq : fixA = true ∨ 2 ≤ cols.length) :
+    ∀ sf ∈ (polyCompare fixA p sc fc cols).admissible, sf ∈ (Spec.polyBrute p sc fc cols).2 :=
+  poly_reported_pair_realised_any_ploidy fixA p sc fc cols hq
+
+theorem poly_rep_is_admissible (fixA : Bool) (p sc fc : Nat) (_hp : p ≤ 4) (cols : List (List Nat × List Nat)) :
+    (polyCompare fixA p sc fc cols).rep ∈ (polyCompare fixA p sc fc cols).admissible :=
+  poly_rep_is_admissible_any_ploidy fixA p sc fc cols
+
+theorem poly_fixed_split_unique_lexmin (p n : Nat) (_hp : p ≤ 4) (ph0 ph1 : List Hap) :
+    (∀ sf ∈ (polySwitchFlips true true ph0 ph1 p n).admissible, sf = (polySwitchFlips true true ph0 ph1 p n).rep) ∧
+    ∀ s ∈ Spec.seqs (Spec.bijections p) n,
+      let r := (polySwitchFlips true true ph0 ph1 p n).rep
+      let sw := Spec.seqSwitches s
+      let fl := Spec.seqFlips s (polyCols ph0 ph1 n)
+      r.1 + r.2 < sw + fl ∨ (r.1 + r.2 = sw + fl ∧ r.2 ≤ fl) :=
+  poly_fixed_split_unique_lexmin_any_ploidy p n ph0 ph1
+
+theorem poly_optimum_perm_invariant (fixA : Bool) (p sc fc n : Nat) (_hp : p ≤ 4) (τ υ : Perm) (hτ : τ ∈ perms p)
+    (hυ : υ ∈ perms p) (ph0 ph1 : List Hap) (h0 : ph0.length = p) (h1 : ph1.length = p) :
+    (polyCompare fixA p sc fc (polyCols (relabelHaps τ ph0) (relabelHaps υ ph1) n)).cost
+        = (polyCompare fixA p sc fc (polyCols ph0 ph1 n)).cost ∧
+    ∀ sf, sf ∈ (Spec.polyBrute p sc fc (polyCols (relabelHaps τ ph0) (relabelHaps υ ph1) n)).2
+        ↔ sf ∈ (Spec.polyBrute p sc fc (polyCols ph0 ph1 n)).2 :=
+  poly_optimum_perm_invariant_any_ploidy fixA p sc fc n τ υ hτ hυ ph0 ph1 h0 h1
+
+theorem poly_perm_invariant (ph0 ph1 : List Hap) (τ υ : Perm) (hw : wellFormed ph0 ph1 = true)
+    (_hp : ph0.length ≤ 4) (h2 : ph0.length ≠ 2) (hτ : τ ∈ perms ph0.length) (hυ : υ ∈ perms ph0.length) :
+    compareBlock true true (relabelHaps τ ph0) (relabelHaps υ ph1) = compareBlock true true ph0 ph1 :=
+  poly_perm_invariant_any_ploidy ph0 ph1 τ υ hw h2 hτ hυ
+
+/-- non-vacuity beyond the old bound: a hexaploid block (720 states per position), relabelled -/
+example : [5,4,3,2,1,0] ∈ perms 6 ∧ [1,0,2,3,4,5] ∈ perms 6 :=
+  ⟨(mem_perms_iff 6 _).2 (by decide), (mem_perms_iff 6 _).2 (by decide)⟩
+
+example : wellFormed [[0,1],[1,0],[0,0],[1,1],[0,1],[0,0]] [[1,1],[0,0],[0,0],[1,1],[0,0],[0,1]] = true := by decide
+
+/-- what membership in the state list means for every ploidy (used to state `hτ`, `hυ` without enumerating) -/
+theorem perms_are_exactly_the_bijections (p : Nat) (σ : Perm) :
+    (σ ∈ perms p ↔ σ.length = p ∧ σ.Nodup ∧ ∀ x ∈ σ, x < p) ∧ perms p = Spec.bijections p :=
+  ⟨mem_perms_iff p σ, perms_eq_bijections p⟩
+
+/-! ## the pairwise report against its definition (`Spec/C11Run.lean`)
+
+`Spec.pairSpec` / `Spec.runSpec` DEFINE what `whatshap compare` must report for two diploid call lists (common heterozygous
+variants, intersection blocks by naive group-by, per block the error counts by definition, totals as sums, first longest
+block, BED rows, `het_variants0`).  Full statement aimed at (compared three-way on every run: Lean spec `c11.runspec`, Python
+oracle, real CLI; not yet proved in full):
+
+    theorem run_compare_meets_spec (t0 t1) (hgt : every call has 2 alleles) (r) (h : comparePair true true true true true 2 t0 t1 = some r) :
+      let S := Spec.pairSpec t0 t1
+      r.intersectionBlocks = S.intersectionBlocks ∧ r.coveredVariants = S.coveredVariants ∧ r.assessedPairs = S.assessedPairs ∧
+      r.total = ⟨S.switches, S.hamming, ⟨S.sfSwitches, S.sfFlips⟩, S.diffGenotypes, 1⟩ ∧ r.bed = S.bed ∧
+      r.perBlock.map (fun b => (b.1, b.2.1)) = S.blocks.map (fun b => (b.positions, ⟨b.switches, b.hamming, ⟨b.sfSwitches, b.sfFlips⟩, b.diffGenotypes, 1⟩)) ∧ …
+
+Missing for it: `jointBlocks` (a `foldl` of `addToBlocks`) = `Spec.groupByKey` (naive group-by) on the keyed variants, and
+`sfLoop` = run-length decomposition `Spec.runLengths`; per block `switches`, `hamming`, `diffGenotypes` already equal their
+definitions by `switch_errors_count_correspondence_changes`, `hamming_is_min_over_correspondences`, `diff_genotypes_eq_definition`
+(+ `assessed_diploid_blocks_are_complementary` for their hypotheses).  Proved below: the totals part and the shape of the run. -/
+
+/-- **totals = sums over the intersection blocks**, any ploidy, any flags, any number of blocks: every total column of a
+pairwise row (`all_switches`, `blockwise_hamming`, `all_switchflips` both parts, `blockwise_diff_genotypes`,
+`all_assessed_pairs`, `covered_variants`, `intersection_blocks`) is the sum over the per-block results `compare_block`
+returned for the intersection blocks with ≥ 2 variants (`perBlock`: positions, errors) — nothing is dropped, nothing is
+counted twice, whatever block becomes "the longest" -/
+theorem totals_are_sums (fixA fixB fix3 fix45 fix46 : Bool) (ploidy : Nat) (t0 t1 : List Call) (r : PairResult)
+    (h : comparePair fixA fixB fix3 fix45 fix46 ploidy t0 t1 = some r) :
+    r.total.switches = (r.perBlock.map (·.2.1.switches)).sum ∧
+    r.total.hamming = (r.perBlock.map (·.2.1.hamming)).sum ∧
+    r.total.sf.switches = (r.perBlock.map (·.2.1.sf.switches)).sum ∧
+    r.total.sf.flips = (r.perBlock.map (·.2.1.sf.flips)).sum ∧
+    r.total.diffGenotypes = (r.perBlock.map (·.2.1.diffGenotypes)).sum ∧
+    r.assessedPairs = (r.perBlock.map (·.1.length - 1)).sum ∧
+    r.coveredVariants = (r.perBlock.map (·.1.length)).sum ∧
+    r.intersectionBlocks = r.perBlock.length := by
+  unfold comparePair at h
+  simp only at h
+  split at h
+  · cases h
+  · rename_i st hst
+    injection h with h; subst h
+    obtain ⟨g1, g2, g3, g4, g5, g6⟩ := pairLoop_good _ _ _ _ _ _ _ _ _ _ _ good_init hst
+    have hl := pairLoop_lengths _ _ _ _ _ _ _ _ _ _ _ hst
+    simp only [List.map_nil, List.nil_append] at hl
+    refine ⟨g1, g2, g3, g4, g5, g6, ?_, ?_⟩
+    · simp only [hl]
+    · have := congrArg List.length hl
+      simpa using this.symm
+
+example : (comparePair true true true true true 2
+      [⟨10,[0,1],true,1⟩, ⟨20,[0,1],true,1⟩, ⟨30,[1,0],true,2⟩, ⟨40,[0,1],true,2⟩, ⟨50,[0,1],true,2⟩]
+      [⟨10,[0,1],true,7⟩, ⟨20,[1,0],true,7⟩, ⟨30,[0,1],true,7⟩, ⟨40,[0,1],true,7⟩, ⟨50,[0,1],true,7⟩]).map
+        (fun r => (r.total.switches, r.perBlock.length, r.coveredVariants)) = some (2, 2, 5) := by decide
+
+/-- **shape of the whole run** (any number of files, chromosomes, pairs; any flags): every pairwise result `run_compare`
+produces — on every common chromosome, for every pair of files — is `compare` applied to two call lists, so
+`totals_are_sums` (and every per-block theorem above) applies to every row of `--tsv-pairwise` -/
+theorem run_compare_rows_are_pair_comparisons (fix3 fix45 fix46 : Bool) (o : Opts) (files : List VFile) (out : List ChromOut)
+    (h : runCompare fix3 fix45 fix46 o files = .ok out) :
+    ∀ ch ∈ out, ∀ po ∈ ch.pairs, ∀ r, po.result = some r →
+      (∃ t0 t1, comparePair true true fix3 fix45 fix46 o.ploidy t0 t1 = some r) ∧
+      r.total.switches = (r.perBlock.map (·.2.1.switches)).sum ∧
+      r.total.hamming = (r.perBlock.map (·.2.1.hamming)).sum ∧
+      r.total.sf.switches = (r.perBlock.map (·.2.1.sf.switches)).sum ∧
+      r.total.sf.flips = (r.perBlock.map (·.2.1.sf.flips)).sum ∧
+      r.total.diffGenotypes = (r.perBlock.map (·.2.1.diffGenotypes)).sum ∧
+      r.assessedPairs = (r.perBlock.map (·.1.length - 1)).sum ∧
+      r.coveredVariants = (r.perBlock.map (·.1.length)).sum ∧
+      r.intersectionBlocks = r.perBlock.length := by
+  intro ch hch po hpo r hr
+  have hmem : ∃ names tabsAll cs, ch ∈ runChroms fix3 fix45 fix46 o files tabsAll names cs := by
+    unfold runCompare at h
+    cases hn : sampleNames o files with
+    | error e => simp [hn, bind, Except.bind] at h
+    | ok names =>
+      cases ht : files.mapM (readFile o) with
+      | error e => simp [hn, ht, bind, Except.bind] at h
+      | ok tabsAll =>
+        simp only [hn, ht, bind, Except.bind] at h
+        split at h
+        · cases h
+        · simp only [pure, Except.pure, Except.ok.injEq] at h
+          subst h
+          exact ⟨_, _, _, hch⟩
+  obtain ⟨names, tabsAll, cs, hc⟩ := hmem
+  obtain ⟨t0, t1, ht⟩ := runChroms_results fix3 fix45 fix46 o files tabsAll names cs ch hc po hpo
+  rw [hr] at ht
+  exact ⟨⟨t0, t1, ht.symm⟩, totals_are_sums _ _ _ _ _ _ _ _ r ht.symm⟩
+example :
+    let f1 : VFile := ⟨["S"], [⟨"c", 10, "A", ["C"], [⟨[some 0, some 1], true, some 10⟩]⟩, ⟨"c", 20, "A", ["C"], [⟨[some 0, some 1], true, some 10⟩]⟩]⟩
+    let f2 : VFile := ⟨["S"], [⟨"c", 10, "A", ["C"], [⟨[some 0, some 1], true, some 10⟩]⟩, ⟨"c", 20, "A", ["C"], [⟨[some 1, some 0], true, some 10⟩]⟩]⟩
+    (match runCompare true true true ⟨2, none, false, false⟩ [f1, f2] with
+      | .ok out => out.map (fun ch => ch.pairs.map (fun po => po.result.map (·.total.switches)))
+      | .error _ => []) = [[some 1]] := by decide
 
 end WhVerif.Props.C11
